@@ -39,6 +39,12 @@ class MemFace(Face):
     async def run(self):
         await self._stop
 
+    def fail(self, exc):
+        """The transport breaks: run() ends by raising (what a stream face does on a broken pipe)."""
+        self.running = False
+        if self._stop is not None and not self._stop.done():
+            self._stop.set_exception(exc)
+
     local = True
 
     on_local_check = None     # optional hook: time may pass while the application builds a command
